@@ -19,7 +19,6 @@ import (
 	"github.com/scionproto/scion/pkg/addr"
 	"github.com/scionproto/scion/pkg/slayers"
 	spathpkg "github.com/scionproto/scion/pkg/slayers/path"
-	scionpath "github.com/scionproto/scion/pkg/slayers/path/scion"
 	"github.com/scionproto/scion/pkg/snet"
 	"pgregory.net/rapid"
 
@@ -79,60 +78,7 @@ func TestMain(m *testing.M) {
 
 // ---------------------------------------------------------------- independent path reversal
 
-func reversePath(p spathpkg.Path) ([]byte, spathpkg.Type, error) {
-	switch p.Type() {
-	case 0: // empty
-		return nil, 0, nil
-	case scionpath.PathType:
-		raw := make([]byte, p.Len())
-		if err := p.SerializeTo(raw); err != nil {
-			return nil, 0, err
-		}
-		var d scionpath.Decoded
-		if err := d.DecodeFromBytes(raw); err != nil {
-			return nil, 0, err
-		}
-		r := scionpath.Decoded{}
-		r.NumINF, r.NumHops = d.NumINF, d.NumHops
-		for i := 0; i < d.NumINF; i++ {
-			inf := d.InfoFields[d.NumINF-1-i]
-			inf.ConsDir = !inf.ConsDir
-			r.InfoFields = append(r.InfoFields, inf)
-			r.PathMeta.SegLen[i] = d.PathMeta.SegLen[d.NumINF-1-i]
-		}
-		for i := 0; i < d.NumHops; i++ {
-			r.HopFields = append(r.HopFields, d.HopFields[d.NumHops-1-i])
-		}
-		r.PathMeta.CurrINF = uint8(d.NumINF) - d.PathMeta.CurrINF - 1
-		r.PathMeta.CurrHF = uint8(d.NumHops) - d.PathMeta.CurrHF - 1
-		out := make([]byte, r.Len())
-		if err := r.SerializeTo(out); err != nil {
-			return nil, 0, err
-		}
-		return out, scionpath.PathType, nil
-	case 2: // one-hop: becomes the two-hop SCION path, seen from the receiver
-		raw := make([]byte, p.Len())
-		if err := p.SerializeTo(raw); err != nil {
-			return nil, 0, err
-		}
-		var info spathpkg.InfoField
-		var h1, h2 spathpkg.HopField
-		info.DecodeFromBytes(raw[:8])
-		h1.DecodeFromBytes(raw[8:20])
-		h2.DecodeFromBytes(raw[20:32])
-		r := scionpath.Decoded{}
-		r.NumINF, r.NumHops = 1, 2
-		r.PathMeta.SegLen[0] = 2
-		r.InfoFields = []spathpkg.InfoField{{ConsDir: false, SegID: info.SegID, Timestamp: info.Timestamp}}
-		r.HopFields = []spathpkg.HopField{h2, h1}
-		out := make([]byte, r.Len())
-		if err := r.SerializeTo(out); err != nil {
-			return nil, 0, err
-		}
-		return out, scionpath.PathType, nil
-	}
-	return nil, 0, fmt.Errorf("path type %d", p.Type())
-}
+func reversePath(p spathpkg.Path) ([]byte, spathpkg.Type, error) { return wire.ReversePath(p) }
 
 // ---------------------------------------------------------------- probing
 
